@@ -485,20 +485,25 @@ def observe(cfg, want):
             obs["chain_upalt"] = dense_entries(chain_matrix(c, lambda v: P.divergenceTerm(c.u * P.upwindMean(v, c.uup))), c.dims)
         if "divu" in W:
             obs["divu"] = vec_nested(P.divergenceTerm(c.u), c.dims)
-        phi = P.CellVariable(c.m, c.phi_full.copy())
+        def newphi():
+            # every builder gets its own fresh input object: a builder that (wrongly) modifies its
+            # input must not pollute the observation of another builder
+            return P.CellVariable(c.m, c.phi_full.copy())
+        phi = newphi()
         if "grad" in W:
-            obs["grad"] = face_nested(P.gradientTerm(phi), d)
+            obs["grad"] = face_nested(P.gradientTerm(newphi()), d)
         if "linmean" in W:
-            obs["linmean"] = face_nested(P.linearMean(phi), d)
+            obs["linmean"] = face_nested(P.linearMean(newphi()), d)
         if "arithmean" in W:
-            obs["arithmean"] = face_nested(P.arithmeticMean(phi), d)
+            obs["arithmean"] = face_nested(P.arithmeticMean(newphi()), d)
         if "harmmean" in W:
-            obs["harmmean"] = face_nested(P.harmonicMean(phi), d)
+            obs["harmmean"] = face_nested(P.harmonicMean(newphi()), d)
         if "upmean" in W:
-            obs["upmean"] = face_nested(P.upwindMean(phi, c.u), d)
-            obs["upmean_again"] = face_nested(P.upwindMean(phi, c.u), d)      # same inputs, second call
+            pu = newphi()
+            obs["upmean"] = face_nested(P.upwindMean(pu, c.u), d)
+            obs["upmean_again"] = face_nested(P.upwindMean(pu, c.u), d)      # same input object, second call
         if "geomean" in W:
-            obs["geomean"] = face_nested(P.geometricMean(phi), d)
+            obs["geomean"] = face_nested(P.geometricMean(newphi()), d)
         if "constmeans" in W:
             cv = float(dec(cfg["const"])) if dec(cfg["const"]) > 0 else 2.0
             cphi = P.CellVariable(c.m, cv * np.ones([n + 2 for n in c.dims]))
@@ -557,11 +562,11 @@ def observe(cfg, want):
         if W & {"tvd0", "tvd1", "tvdnamed", "tvdconst"}:
             TVD = P.convectionTVDupwindRHSTerm
             if "tvd0" in W:
-                obs["tvd0"] = vec_nested(TVD(c.u, phi, lambda r: 0.0 * r, c.uup), c.dims)
+                obs["tvd0"] = vec_nested(TVD(c.u, newphi(), lambda r: 0.0 * r, c.uup), c.dims)
             if "tvd1" in W:
-                obs["tvd1"] = vec_nested(TVD(c.u, phi, lambda r: 1.0 + 0.0 * r, c.uup), c.dims)
+                obs["tvd1"] = vec_nested(TVD(c.u, newphi(), lambda r: 1.0 + 0.0 * r, c.uup), c.dims)
             if "tvdnamed" in W:
-                obs["tvdnamed"] = {nm: vec_nested(TVD(c.u, phi, P.fluxLimiter(nm), c.uup), c.dims)
+                obs["tvdnamed"] = {nm: vec_nested(TVD(c.u, newphi(), P.fluxLimiter(nm), c.uup), c.dims)
                                    for nm in cfg["limiters"]}
             if "tvdconst" in W:
                 cphi = P.CellVariable(c.m, float(dec(cfg["const"])) * np.ones([n + 2 for n in c.dims]))
